@@ -120,6 +120,7 @@ func (lcm *LCM) DecodeFromBytes(data []byte, df gopacket.DecodeFeedback) error {
 		df.SetTruncated()
 		return errors.New("LCM < 8 bytes")
 	}
+	*lcm = LCM{}
 	offset := 0
 
 	lcm.Magic = binary.BigEndian.Uint32(data[offset:4])
